@@ -59,11 +59,10 @@ fn any_mtud(e: &Env) -> MtuDiscovery {
     let peer_max: u16 = vk::any();
     // transport parameter validation gives max_udp_payload_size >= 1200 (it may well be below the configured minimum MTU)
     vk::assume(peer_max >= 1200);
-    let m = MtuDiscovery {
-        current_mtu: vk::any(),
-        state: Some(EnabledMtuDiscovery { phase, peer_max_udp_payload_size: peer_max, config: config(e) }),
-        black_hole_detector: any_detector(e.min_mtu),
-    };
+    // (built through the private constructor and field assignments, not a struct literal, so that the harnesses do not depend on
+    // which other fields the estimator has)
+    let mut m = MtuDiscovery::with_state(vk::any(), e.min_mtu, Some(EnabledMtuDiscovery { phase, peer_max_udp_payload_size: peer_max, config: config(e) }));
+    m.black_hole_detector = any_detector(e.min_mtu);
     vk::assume(inv(&m, e));
     m
 }
@@ -283,5 +282,58 @@ fn mtud_reset() {
     assert!(m.current_mtu == c.min(p));
     assert!(peer_max(&m) == p);
     check_inv(&m, &e);
+    core::mem::forget(m);
+}
+
+// ---- MTU discovery disabled (state == None): the peer's limit must still bind the estimate ----
+
+// @harness mtud_disabled_step props=C13 tier=quick kind=proof fn="MtuDiscovery::{disabled,on_peer_max_udp_payload_size_received,reset,black_hole_detected,on_acked,poll_transmit}" desc="MTU discovery disabled, inductive step: from any state of the estimator in which the peer's max_udp_payload_size p has been received and the estimate is <= p, none of reset (Connection::path_changed), black-hole fallback, a further limit, an acknowledgement or poll_transmit takes the estimate above p; no probe is ever sent"
+#[cfg_attr(kani, kani::proof)]
+#[cfg_attr(kani, kani::unwind(8))]
+#[cfg_attr(verif_replay, test)]
+fn mtud_disabled_step() {
+    let min_mtu: u16 = vk::any();
+    let initial: u16 = vk::any();
+    let p: u16 = vk::any();
+    vk::assume(min_mtu >= 1200 && initial >= min_mtu && p >= 1200);
+    let mut m = MtuDiscovery::disabled(initial, min_mtu);
+    m.on_peer_max_udp_payload_size_received(p);
+    assert!(m.current_mtu == initial.min(p));
+    // any later state: the estimate anywhere at or below the limit, any loss history
+    let cur: u16 = vk::any();
+    vk::assume(cur <= p);
+    m.current_mtu = cur;
+    m.black_hole_detector = any_detector(min_mtu);
+    let mut limit = p;
+    match vk::any::<u8>() % 5 {
+        0 => {
+            let c: u16 = vk::any();
+            vk::assume(c >= min_mtu);
+            m.reset(c, min_mtu);
+            assert!(m.current_mtu <= p, "estimate above the peer's max_udp_payload_size after reset with discovery disabled");
+            assert!(m.current_mtu == c.min(p));
+        }
+        1 => {
+            let hit = m.black_hole_detected(vk::instant(vk::any::<u16>() as u32));
+            assert!(m.current_mtu == if hit { cur.min(min_mtu) } else { cur });
+        }
+        2 => {
+            let q: u16 = vk::any();
+            vk::assume(q >= 1200);
+            m.on_peer_max_udp_payload_size_received(q);
+            assert!(m.current_mtu == cur.min(q));
+            limit = limit.min(q);
+        }
+        3 => {
+            let probe = m.on_acked(if vk::any() { SpaceId::Data } else { SpaceId::Handshake }, vk::any::<u32>() as u64, vk::any());
+            assert!(!probe && m.current_mtu == cur);
+        }
+        _ => {
+            assert!(m.poll_transmit(vk::instant(0), vk::any::<u32>() as u64).is_none(), "probe sent with discovery disabled");
+            m.on_probe_lost();
+            assert!(m.current_mtu == cur);
+        }
+    }
+    assert!(m.current_mtu <= limit, "estimate above the peer's max_udp_payload_size with discovery disabled");
     core::mem::forget(m);
 }
